@@ -85,6 +85,8 @@ func declarations(thorough bool) []Decl {
 		names := []string{"pz"}
 		if loc == "header" {
 			names = []string{"X-Pz-Val", "x-pz-val"}
+		} else if thorough && loc != "path" {
+			names = []string{"pz", "p z[]"} // a name that needs escaping on the wire
 		}
 		bools := []bool{false, true}
 		reqs, allows := bools, bools
@@ -99,8 +101,12 @@ func declarations(thorough bool) []Decl {
 				for _, def := range bools {
 					for _, allow := range allows {
 						base := Decl{Loc: loc, Name: name, Required: req, Default: def, AllowEmpty: allow}
+						plainName := name != "p z[]"
 						for _, s := range scalars {
 							for _, v := range validations(s.t, s.f, thorough) {
+								if !plainName && v != "" {
+									continue
+								}
 								d := base
 								d.Type, d.Format, d.Valid = s.t, s.f, v
 								out = append(out, d)
@@ -112,6 +118,9 @@ func declarations(thorough bool) []Decl {
 									continue // multi is valid only for query and formData
 								}
 								for _, v := range arrayValidations(it.t, thorough) {
+									if !plainName && v != "" {
+										continue
+									}
 									d := base
 									d.Type, d.ItemType, d.ItemFormat, d.CF, d.Valid = "array", it.t, it.f, cf, v
 									out = append(out, d)
@@ -274,6 +283,23 @@ func main() {
 	if r.Replay != "" {
 		var c Case
 		r.LoadReplay(&c)
+		if c.D2 != nil && c.Q2 != nil {
+			pp := preparePair(c.Level, c.D, *c.D2)
+			o, ok := pp.execute(c.Q, *c.Q2)
+			raw, _ := rawRequestMulti([]Decl{c.D, *c.D2}, []Req{c.Q, *c.Q2})
+			fmt.Printf("replay level=%s (two parameters)\n  parameters: %v\n              %v\n  request: %q\n", c.Level, c.D.paramJSON(), c.D2.paramJSON(), raw)
+			if ok {
+				cl, what := judgePair(c.Level, [2]Decl{c.D, *c.D2}, [2]Req{c.Q, *c.Q2}, o)
+				fmt.Printf("  %s\n  class=%q\n", what, cl)
+				if cl != "" {
+					r.Fail(cl, what, c)
+				}
+			}
+			r.Eval(1)
+			r.Nontrivial(1)
+			r.Sample(c)
+			r.Finish("replay of one case", false)
+		}
 		p := prepare(c.Level, c.D)
 		o, ok := p.execute(c.Q)
 		e := reference(c.D, c.Q)
@@ -332,7 +358,7 @@ func main() {
 		"array-of-string": len(arrayTexts["string"]), "array-of-integer": len(arrayTexts["integer"]), "array-of-number": len(arrayTexts["number"]), "array-of-boolean": len(arrayTexts["boolean"])})
 	r.Set("axes", map[string]any{
 		"location":          []string{"path", "query", "header", "formData urlencoded", "formData multipart"},
-		"declared_name":     "pz; headers X-Pz-Val and x-pz-val",
+		"declared_name":     "pz (thorough also \"p z[]\" in query/formData); headers X-Pz-Val and x-pz-val",
 		"required":          2,
 		"default":           "none | the standard valid default of the type",
 		"allowEmptyValue":   "query and formData only",
@@ -355,11 +381,56 @@ func main() {
 			if e.mustBind() || e.must422() {
 				nontrivial++
 			}
+			if e.Free {
+				outcomes["not-judged-text-outside-tables"]++
+			}
 			outcomes[outcomeLabel(j.level, e, o)]++
 			if cl, what := judge(j.level, j.d, q, e, o); cl != "" {
-				r.Fail(cl, what, Case{j.level, j.d, q})
-			} else if r.WantSample() && (i+int(evals))%977 == 0 {
-				r.Sample(map[string]any{"case": Case{j.level, j.d, q}, "observed": o.String(), "expected": e.String()})
+				r.Fail(cl, what, Case{Level: j.level, D: j.d, Q: q})
+			} else if r.WantSample() && i%(len(jobs)/11+1) == 0 && int(evals) == 3+i%7 {
+				r.Sample(map[string]any{"case": Case{Level: j.level, D: j.d, Q: q}, "observed": o.String(), "expected": e.String()})
+			}
+		}
+		r.Eval(evals)
+		r.Nontrivial(nontrivial)
+		for k, v := range outcomes {
+			r.Outcome(k, v)
+		}
+	})
+	// pair sweep: two parameters of one operation in two locations, same or different names
+	pairs := pairDecls()
+	var pjobs []pairJob
+	for _, pd := range pairs {
+		for _, l := range levels {
+			pjobs = append(pjobs, pairJob{l, pd[0], pd[1]})
+		}
+	}
+	r.Set("pair_sweep", map[string]int{"declaration_pairs": len(pairs), "levels": len(levels)})
+	enum.Parallel(len(pjobs), r.OutOfTime, func(i int) {
+		j := pjobs[i]
+		p := preparePair(j.level, j.d1, j.d2)
+		var evals, nontrivial int64
+		outcomes := map[string]int64{}
+		for _, q1 := range pairRequests(j.d1) {
+			for _, q2 := range pairRequests(j.d2) {
+				o, ok := p.execute(q1, q2)
+				if !ok {
+					continue
+				}
+				evals++
+				nontrivial++
+				switch {
+				case o.Panic != "":
+					outcomes["pair:"+j.level+":panic"]++
+				case o.Status != 200:
+					outcomes[fmt.Sprintf("pair:%s:refused-%d", j.level, o.Status)]++
+				default:
+					outcomes["pair:"+j.level+":bound"]++
+				}
+				if cl, what := judgePair(j.level, [2]Decl{j.d1, j.d2}, [2]Req{q1, q2}, o); cl != "" {
+					d2, q2c := j.d2, q2
+					r.Fail(cl, what, Case{Level: j.level, D: j.d1, Q: q1, D2: &d2, Q2: &q2c})
+				}
 			}
 		}
 		r.Eval(evals)
@@ -375,13 +446,14 @@ func main() {
 	r.Finish("every declaration of the stated product x every request of the stated presence/text sets, at each level; one evaluation = one Bind call or one request through the handler stack on the real code, compared with the reference; non-trivial = the property text forces the outcome of the case (MUST bind exactly one of the listed values, or MUST be 422) so the comparison can fail both ways; distinct by construction: the enumerators never repeat a (level, declaration, request) triple", true)
 }
 
-// quickHandlerSlice: the declarations that also go through the full handler stack in the quick tier.
+// quickHandlerSlice: the declarations that also go through the full handler
+// stack in the quick tier (thorough: all of them). One API is built per declaration.
 func quickHandlerSlice(d Decl) bool {
-	if d.Valid != "" && d.Valid != "minmax" && d.Valid != "items" {
+	if d.AllowEmpty {
 		return false
 	}
-	if d.AllowEmpty && d.Default {
-		return false
+	if d.Valid == "" {
+		return true
 	}
-	return true
+	return (d.Valid == "minmax" || d.Valid == "items") && !d.Required && !d.Default
 }
